@@ -293,6 +293,9 @@ func c14Exec(c *c14Case) {
 		fmt.Fprintf(&b, " :\n    %s\n;\n\n", body)
 	}
 	c.Text = b.String()
+	if renderOnly {
+		return
+	}
 	if f := os.Getenv("VERIF_LASTTEXT"); f != "" {
 		os.WriteFile(f, []byte(c.Text), 0644)
 	}
